@@ -143,6 +143,7 @@ pub fn ledger_has_errors() -> bool { LEDGER.with(|l| !l.borrow().errors.is_empty
 /// remaining ones were leaked on purpose).
 pub fn ledger_reset() {
     LEDGER.with(|l| { let mut l = l.borrow_mut(); l.state.clear(); l.live = 0; l.errors.clear(); l.window = None; });
+    NEXT_SEED.with(|s| s.set(0));
 }
 /// uids currently live (slow; for leak reports)
 pub fn ledger_live_uids(max: usize) -> Vec<u64> {
@@ -247,14 +248,20 @@ impl fmt::Debug for TVal {
 
 /// Deterministic hasher family: 0 constant, 1 three buckets, 2 high bits only
 /// (same probe start, distinct tag), 3 multiplicative mix.
+/// `TH(kind, seed)`: the seed is per-instance state (like std's RandomState); it enters the hash of the mixing kinds
+/// (3, 5) only, so the structured kinds keep their collision structure. Clones share the seed.
 #[derive(Clone, Debug)]
-pub struct TH(pub u8);
+pub struct TH(pub u8, pub u64);
 
 pub struct THH(u64, u8);
 
+thread_local! { static NEXT_SEED: Cell<u64> = const { Cell::new(0) }; }
+/// a fresh per-instance hasher seed (deterministic: the counter restarts with every ledger_reset)
+pub fn next_hasher_seed() -> u64 { NEXT_SEED.with(|s| { let v = s.get(); s.set(v + 1); v.wrapping_mul(0x9E3779B97F4A7C15) }) }
+
 impl BuildHasher for TH {
     type Hasher = THH;
-    fn build_hasher(&self) -> THH { THH(0, self.0) }
+    fn build_hasher(&self) -> THH { THH(if self.0 == 3 || self.0 == 5 { self.1 } else { 0 }, self.0) }
 }
 
 impl Hasher for THH {
